@@ -17,6 +17,7 @@ import (
 	"os"
 	"path/filepath"
 	"runtime"
+	"runtime/debug"
 	"sort"
 	"strings"
 	"sync"
@@ -186,7 +187,24 @@ func (e *Explorer) history(s *State, extra []int) []string {
 // If commit is false the transaction is rolled back after observe ran.
 func RunProgram(db *boltz.DbImpl, ctx boltz.MutateContext, ops []Op, program []int, commit bool, observe func(tx *bbolt.Tx) error) (opErr error, obsErr error) {
 	ran := false
-	err := db.Update(ctx, func(ctx boltz.MutateContext) error {
+	err := db.Update(ctx, func(ctx boltz.MutateContext) (result error) {
+		// a panic inside an operation or inside the API reads of the oracle is a finding, not a crash of
+		// the checker: it is reported like a failed operation / failed read (the transaction rolls back)
+		phase := "operation"
+		defer func() {
+			if r := recover(); r != nil {
+				perr := fmt.Errorf("verif-panic in %s: %v\n%s", phase, r, trimStack(debug.Stack()))
+				if phase == "operation" {
+					opErr = perr
+				} else {
+					obsErr = perr
+				}
+				result = errRollback
+				if phase == "operation" {
+					result = perr
+				}
+			}
+		}()
 		for _, o := range program {
 			if err := ops[o].Do(ctx); err != nil {
 				opErr = err
@@ -194,6 +212,7 @@ func RunProgram(db *boltz.DbImpl, ctx boltz.MutateContext, ops []Op, program []i
 			}
 		}
 		ran = true
+		phase = "API reads after the transaction body"
 		if observe != nil {
 			obsErr = observe(ctx.Tx())
 		}
@@ -525,4 +544,18 @@ func SortedKeys[V any](m map[string]V) []string {
 	}
 	sort.Strings(keys)
 	return keys
+}
+
+func trimStack(b []byte) string {
+	lines := strings.Split(string(b), "\n")
+	var keep []string
+	for _, l := range lines {
+		if strings.Contains(l, "/repo/") || strings.Contains(l, "panic") {
+			keep = append(keep, strings.TrimSpace(l))
+		}
+		if len(keep) >= 8 {
+			break
+		}
+	}
+	return strings.Join(keep, " | ")
 }
